@@ -3,6 +3,7 @@ import Fabio.Driver.RouteJson
 import Fabio.Model.Route
 import Fabio.Model.Parse
 import Fabio.Model.C02
+import Fabio.Model.C02Loop
 /-!
 Driver handlers for C02.
 
@@ -12,6 +13,12 @@ Driver handlers for C02.
   observables only — with `build_i` = what the real `NewTable` made of the i-th concatenated text (computed in
   the harness process) the active table after event i must be the table of the last `build_j`, `j ≤ i`, that is a
   table (the empty table if none); no crash of the child, no panic of `NewTable`.
+  Round 3: an event may carry `amp` (an over-long line inserted, comment lines appended: `ampText` mirrors the
+  harness), the session has a routes format (`fmt`) and may start through the real static/file backend (`via`: the
+  first event is then a service update whatever it says — `Source.events`). `spec` additionally demands
+  COMPLETENESS: whenever the real `NewTable` accepted a text, the number of definitions the real `Parse` made of it
+  equals `commandLines text` counted here (class `accepted-text-incomplete`). `agree` additionally compares the
+  `Register` calls of the loop (consecutive duplicates collapsed) with `registeredTrace` (model of `ParseAliases`).
 * `c02.custom` — same for the custom backend: `agree` against `customTrace` (repaired `newTableCustom`,
   `buildDefs` = `Route.newTable` on the definitions Go's encoding/json decoded), `spec`: active = table of the
   last document that decoded into a fresh variable and built.
@@ -21,7 +28,7 @@ Driver handlers for C02.
   unpublished or nil table.
 -/
 namespace Fabio.Driver.C02
-open Lean Fabio.Driver Fabio.Driver.RouteJson Fabio.Model.Route Fabio.Model.Parse Fabio.Model.C02
+open Lean Fabio.Driver Fabio.Driver.RouteJson Fabio.Model.Route Fabio.Model.Parse Fabio.Model.C02 Fabio.Model.C02Loop
 
 def objOr (j : Json) (k : String) : Json := (j.getObjVal? k).toOption.getD (Json.mkObj [])
 def has (j : Json) (k : String) : Bool := (j.getObjVal? k).toOption.isSome
@@ -58,12 +65,41 @@ def crashTag (impl : Json) : Option String :=
 
 /-! ### c02.history -/
 
-def eventOf (j : Json) : Option Ev :=
+def boolOf (j : Json) (k : String) : Bool := (j.getObjValAs? Bool k).toOption.getD false
+
+def padLine : Str := "# pad pad pad pad pad pad pad pad pad pad pad pad pad pad pad pad".toList
+
+/-- the harness's `amp.expandLines` -/
+def ampText (s : Str) (a : Json) : Str :=
+  let long := min (natOf a "long") (2^21)
+  let s1 :=
+    if long > 0 then
+      let l := if boolOf a "longCmd" then "route add ".toList ++ List.replicate long 's' ++ " /long http://a:1/".toList
+               else '#' :: List.replicate (long - 1) 'x'
+      let ls := splitOn '\n' s
+      let at_ := natOf a "longAt"
+      join ['\n'] (ls.take at_ ++ [l] ++ ls.drop at_)
+    else s
+  let pad := min (natOf a "pad") 4096
+  s1 ++ (List.replicate pad ('\n' :: padLine)).flatten
+
+def eventText (j : Json) : Option Str :=
   if has j "hex" then none else
   let t := getStrD j "text"
-  match (j.getObjValAs? String "src").toOption with
-  | some "man" => some (.man t)
-  | _ => some (.svc t)
+  some (match j.getObjVal? "amp" with
+    | .ok a => if a.isNull then t else ampText t a
+    | .error _ => t)
+
+/-- `forceSvc`: the first event of a session that starts through the static / file backend -/
+def eventOf (forceSvc : Bool) (j : Json) : Option Ev :=
+  (eventText j).map fun t =>
+    match (j.getObjValAs? String "src").toOption with
+    | some "man" => if forceSvc then .svc t else .man t
+    | _ => .svc t
+
+def dedupAdj {α} [BEq α] : List α → List α
+  | a :: b :: r => if a == b then dedupAdj (b :: r) else a :: dedupAdj (b :: r)
+  | l => l
 
 /-- walk the implementation's steps: `cur` = table of the last good build so far; result = (ok, class flags) -/
 structure HistAcc where
@@ -94,24 +130,41 @@ def historyH : Handler := fun inp impl => do
   let steps := arrOf impl "steps"
   let acc := steps.foldl histStep {}
   let crash := crashTag impl
-  let spec := acc.ok && crash.isNone && steps.length == evsJ.length
+  let via := (inp.getObjValAs? String "via").toOption.getD ""
+  let viaOn := via == "static" || via == "file"
   -- the model
-  let evs := evsJ.map eventOf
+  let evs := (evsJ.zipIdx).map (fun (j, i) => eventOf (viaOn && i == 0) j)
   let inModel := evs.all Option.isSome
+  let evl := evs.filterMap id
   let o := objOr impl "oracle"
-  let trace := WB.trace (buildOf o) (WB.init ([] : Table)) (evs.filterMap id)
-  let m := Json.arr (trace.map tableJson).toArray
-  let agree := !inModel ||
-    (crash.isNone && trace.length == steps.length &&
-     (trace.zip steps).all (fun (t, s) => closeJson (tableJson t) ((s.getObjVal? "active").toOption.getD Json.null)))
+  -- completeness, on the implementation's observables: a text the real NewTable accepted was parsed by the real
+  -- Parse into exactly as many definitions as the text has command lines
+  let txs := texts evl
+  let incomplete := inModel && (steps.zip txs).any (fun (s, tx) =>
+    match builtTable (objOr s "build"), (s.getObjValAs? Nat "ndefs").toOption with
+    | some _, some n => n != commandLines tx
+    | _, _ => false)
+  let spec := acc.ok && crash.isNone && steps.length == evsJ.length && !incomplete
+  let trace := WB.trace (buildOf o) (WB.init ([] : Table)) evl
+  let reg := dedupAdj (registeredTrace (pfOf o) (buildOf o) (WB.init ([] : Table)) evl).flatten
+  let regJ := Json.arr (reg.map (fun a => Json.arr (a.map str).toArray)).toArray
+  let m := Json.mkObj [("active", Json.arr (trace.map tableJson).toArray), ("registered", regJ)]
+  let regOk := steps.isEmpty || (impl.getObjVal? "registered").toOption == some regJ
+  let tablesOk := crash.isNone && trace.length == steps.length &&
+     (trace.zip steps).all (fun (t, s) => closeJson (tableJson t) ((s.getObjVal? "active").toOption.getD Json.null))
+  let agree := !inModel || (tablesOk && regOk)
   let tag := match crash with
     | some c => c
     | none =>
       if !acc.ok then acc.bad
       else if steps.length != evsJ.length then "steps-missing"
+      else if incomplete then "accepted-text-incomplete"
+      else if inModel && tablesOk && !regOk then "registered-differs"
       else
         let base := if acc.nFail == 0 then "all-build" else if acc.nOk == 0 then "none-builds"
           else if acc.recovered then "fail-then-recover" else if acc.failAfterOk then "fail-keeps-last" else "fail-first"
+        let base := if viaOn then base ++ "/" ++ via else base
+        let base := if evsJ.any (fun j => has j "amp") then base ++ "/amp" else base
         if inModel then base else base ++ "/bytes-outside-model"
   return ({ model := m, agree, spec, nontrivial := acc.failAfterOk && acc.recovered, tag } : Verdict).toJson
 
@@ -190,7 +243,15 @@ def nopanicH : Handler := fun inp impl => do
   let kind := (inp.getObjValAs? String "kind").toOption.getD "text"
   let outcome := (impl.getObjValAs? String "outcome").toOption.getD "?"
   let usePanic := has impl "usePanic"
-  let spec := outcome != "panic" && outcome != "?" && !usePanic
+  -- completeness (see c02.history): only where the text the harness built can be rebuilt here — no generated
+  -- targets, no bytes outside UTF-8, at most 70000 characters in the inserted line
+  let ampJ := (inp.getObjVal? "amp").toOption.getD Json.null
+  let rebuildable := kind == "text" && !has inp "hex" && (ampJ.isNull || (natOf ampJ "targets" == 0 && natOf ampJ "long" ≤ 70000))
+  let incomplete := rebuildable && outcome == "table" &&
+    (match (impl.getObjValAs? Nat "ndefs").toOption with
+     | some n => n != commandLines (if ampJ.isNull then getStrD inp "text" else ampText (getStrD inp "text") ampJ)
+     | none => false)
+  let spec := outcome != "panic" && outcome != "?" && !usePanic && !incomplete
   let what := match impl.getObjVal? "what" with
     | .ok (.str s) => s
     | .ok w => (w.getObjValAs? String "kind").toOption.getD "err" ++
@@ -212,6 +273,7 @@ def nopanicH : Handler := fun inp impl => do
   let tag :=
     if usePanic then kind ++ ":use-panic"
     else if outcome == "panic" then kind ++ ":build-panic"
+    else if incomplete then kind ++ ":accepted-text-incomplete"
     else if outcome == "table" then kind ++ ":table" ++ cls
     else kind ++ ":error:" ++ what ++ cls
   let nontrivial := outcome == "table" || (outcome == "error" && what != "decode" && !what.startsWith "syn")
